@@ -2,7 +2,7 @@
     compiled (rule names and action names resolved) and run by the generic pigeon interpreter
     with the transcribed actions.  Executable definitions only. *)
 From Coq Require Import ZArith List Bool String Ascii.
-From FV Require Import Model.PegSyntax Model.Peg Model.ParserStrings Model.ParserAst Model.ParserActions.
+From FV Require Import Model.PegSyntax Model.Peg Model.PegWf Model.ParserStrings Model.ParserAst Model.ParserActions.
 From FV Require Import Gen.Grammar.
 Import ListNotations.
 Open Scope Z_scope.
@@ -18,6 +18,10 @@ Definition rule_names : list string := Eval vm_compute in map fst grammar_rules.
 (** index of a rule by name (for proofs and for error reports) *)
 Definition rule_id (name : string) : nat :=
   match rule_index (map fst grammar_rules) name 0 None with Some i => i | None => List.length grammar_rules end.
+
+(** well-formedness data of the generated grammar (checked, not trusted: Proofs/ParserProofs.v) *)
+Definition nullable_tbl : list bool := Eval vm_compute in nullable_table rules.
+Definition rank_tbl : list nat := Eval vm_compute in rank_table rules nullable_tbl.
 
 (** fuel bounds the recursion DEPTH of the interpreter (see Proofs/PegProofs.v: a well-formed
     grammar needs depth at most (|input| + 1) * depth_per_byte) *)
